@@ -664,9 +664,10 @@ func enum(ctx *h.Ctx) {
 // ---- concurrent histories, checked for linearizability ----
 
 type COp struct {
-	K    string // put get peek len
+	K    string // put get peek len cap resize
 	Base int
 	Used bool
+	N    int // resize: new capacity 1..3
 }
 type CCase struct {
 	Kind    string
@@ -711,6 +712,7 @@ type cin struct {
 	id   int
 	used bool
 	next int64
+	n    int
 }
 type cout struct {
 	id   int // get: block id or 0; put: evicted id, 0 none, -1 self
@@ -767,6 +769,17 @@ func cacheModel(kind string, cp int) porcupine.Model {
 			switch i.k {
 			case "len":
 				return o.n == len(s.blocks), s
+			case "cap":
+				return o.n == s.cap, s
+			case "resize":
+				// LRU and FIFO drop from the old end of their list (insertion order:
+				// Get unlinks, so no other order arises); Random is not generated
+				bl := append([]mblock(nil), s.blocks...)
+				sort.Slice(bl, func(a, b int) bool { return bl[a].seq < bl[b].seq })
+				if len(bl) > i.n {
+					bl = bl[len(bl)-i.n:]
+				}
+				return true, mstate{cap: i.n, seq: s.seq, blocks: bl}
 			case "peek":
 				k := find(i.base)
 				if k < 0 {
@@ -848,10 +861,10 @@ func drawC(t *rapid.T) CCase {
 	nt := rapid.IntRange(2, 4).Draw(t, "threads")
 	for i := 0; i < nt; i++ {
 		ops := rapid.SliceOfN(rapid.Custom(func(t *rapid.T) COp {
-			k := rapid.SampledFrom([]string{"put", "put", "get", "peek", "len"}).Draw(t, "k")
+			k := rapid.SampledFrom([]string{"put", "put", "put", "get", "peek", "len", "len", "cap", "resize"}).Draw(t, "k")
 			base := rapid.IntRange(0, 3).Draw(t, "base")
 			used := rapid.IntRange(0, 3).Draw(t, "used") != 0
-			return COp{k, base, used}
+			return COp{K: k, Base: base, Used: used, N: rapid.IntRange(1, 3).Draw(t, "n")}
 		}), 3, 6).Draw(t, fmt.Sprintf("t%d", i))
 		c.Threads = append(c.Threads, ops)
 	}
@@ -872,15 +885,36 @@ func runC(c CCase, rec *h.Rec) {
 	}
 	id := 0
 	var yields uint32
+	resizes, hasResize := false, false
+	for _, ops := range c.Threads {
+		for _, o := range ops {
+			hasResize = hasResize || (o.K == "resize" && c.Kind != "random")
+		}
+	}
 	plans := make([][]planned, len(c.Threads))
 	blocks := map[bgzf.Block]int{}
 	for ti, ops := range c.Threads {
 		for _, o := range ops {
-			p := planned{in: cin{k: o.K, base: fileBase(o.Base)}}
+			p := planned{in: cin{k: o.K, base: fileBase(o.Base), n: o.N}}
+			if o.K == "resize" {
+				resizes = true
+				if c.Kind == "random" {
+					p.in.k = "cap" // which blocks Random drops is not determined
+				}
+			}
 			used := o.Used
 			if c.Kind == "fifo" {
 				used = o.Base < 2
 				if o.K == "get" && o.Base < 2 {
+					p.in.k = "peek"
+				}
+			}
+			if hasResize {
+				// Resize drops from the old end of the list only if no block is
+				// unused-and-preferred; with used blocks only, what a shrinking Resize
+				// and a Put on a full cache evict is determined
+				used = true
+				if c.Kind == "fifo" && o.K == "get" {
 					p.in.k = "peek"
 				}
 			}
@@ -933,6 +967,10 @@ func runC(c CCase, rec *h.Rec) {
 					out.ex, out.next = cc.Peek(p.in.base)
 				case "len":
 					out.n = cc.Len()
+				case "cap":
+					out.n = cc.Cap()
+				case "resize":
+					cc.Resize(p.in.n)
 				}
 				ret := atomic.AddInt64(&clock, 1)
 				mu.Lock()
@@ -962,6 +1000,7 @@ func runC(c CCase, rec *h.Rec) {
 	}
 	rec.Class(c.Kind)
 	rec.ClassIf(c.Yield != 0, "yielding_blocks")
+	rec.ClassIf(resizes && hasResize, "with_resize")
 	rec.NTIf(len(hist) >= 8)
 }
 
